@@ -371,3 +371,41 @@ func TestRegressStoreCounterBeyond65535(t *testing.T) {
 		t.Fatalf("Prune(0) (= Client.Cleanup) of a store with %d light blocks left heights %d..%d behind: the repudiated history is still served as trusted", n, f, l)
 	}
 }
+
+// "... all within the trusting period." A request below the lowest trusted height is served by following hash links
+// down from that lowest trusted header - without asking whether it is still inside the trusting period (the forward
+// paths return ErrOldHeaderExpired, the spec's VerifyHeaderBackwards checks it, VerifyHeader's doc promises it).
+func TestRegressBackwardsFromExpiredHeader(t *testing.T) {
+	w := fixedWorld(t, 5)
+	defer w.c.Close()
+	ep := newEpisode()
+	defer ep.close()
+	pb, _ := overlay(w.g, nil)
+	primary := w.newNode(ep, "primary:honest", pb, w.L)
+	hb, _ := overlay(w.g, nil)
+	honest := w.newNode(ep, "honest", hb, w.L)
+	first := func(pend []*req) int { return 0 }
+	st := dbs.New(dbm.NewMemDB(), w.chainID)
+	var cl *light.Client
+	var err error
+	period := time.Hour
+	ep.run(func() {
+		cl, err = light.NewClient(ep.ctx, w.chainID, light.TrustOptions{Period: period, Height: 4, Hash: w.g[4].Hash()},
+			primary, []provider.Provider{honest}, st, light.MaxClockDrift(time.Millisecond), light.MaxBlockLag(0))
+	}, first)
+	if err != nil {
+		t.Fatalf("NewClient: %v", err)
+	}
+	ep.mu.Lock()
+	ep.call = 1
+	ep.mu.Unlock()
+	now := w.T(4).Add(period).Add(time.Second) // the only trusted header expired a second ago
+	ep.run(func() { _, err = cl.VerifyLightBlockAtHeight(ep.ctx, 2, now) }, first)
+	if lb, _ := st.LightBlock(2); err == nil || lb != nil {
+		t.Fatalf("header 2 was verified (err=%v) and stored (%v) starting from trusted header 4, which left the trusting period one second before the call", err, lb != nil)
+	}
+	var exp light.ErrOldHeaderExpired
+	if !errors.As(err, &exp) {
+		t.Logf("note: failed with %v", err)
+	}
+}
